@@ -483,6 +483,10 @@ pub fn run(ctx: &Ctx) -> (&'static str, &'static str) {
         shadow_field!(ctx, "Fr", Fr, &er, &es);
         shadow_sqrt!(ctx, "Fq", Fq, &eq);
         shadow_sqrt!(ctx, "Fr", Fr, &er);
+        let rq: Vec<FqRepr> = alpha::repr_values(q(), 6, &mut rng, 8).iter().step_by(2).map(|x| repr_of::<FqRepr>(x)).collect();
+        let rr: Vec<FrRepr> = alpha::repr_values(r(), 4, &mut rng, 8).iter().step_by(2).map(|x| repr_of::<FrRepr>(x)).collect();
+        shadow_repr!(ctx, "FqRepr", FqRepr, &rq);
+        shadow_repr!(ctx, "FrRepr", FrRepr, &rr);
     }
     ctx.assume("integers mod p are computed with num-bigint (%, modpow); the subject's arithmetic is derive-generated Montgomery code");
     (
